@@ -38,8 +38,17 @@ def load_ledger(prop):
     return known
 
 
+def _quiet():
+    import logging
+    import warnings
+
+    logging.disable(logging.CRITICAL)
+    warnings.simplefilter("ignore")
+
+
 def _task(args):
     prop, tier, seed, subname, shard, nshards, known_sigs, deadline = args
+    _quiet()
     try:
         importlib.import_module(f"vf.props.{prop.lower()}")
         sub = [s for s in core.SUBCHECKS[prop] if s["name"] == subname][0]
@@ -94,6 +103,7 @@ def main(argv=None):
     a = ap.parse_args(argv)
     prop = a.prop.upper()
     t0 = time.time()
+    _quiet()
     try:
         seed = int(os.environ.get("VERIF_SEED", "1") or 1)
     except ValueError:
